@@ -1,0 +1,20 @@
+//! Read-only verification hooks (feature `verif-hooks`).
+use super::TwoQueueCache;
+use crate::lru::RawLRU;
+use crate::DefaultEvictCallback;
+use core::hash::Hash;
+
+impl<K: Hash + Eq, V, RH, FH, GH> TwoQueueCache<K, V, RH, FH, GH> {
+    /// The recent, frequent and ghost lists, and the recent quota.
+    #[allow(clippy::type_complexity)]
+    pub fn verif_lists(
+        &self,
+    ) -> (
+        &RawLRU<K, V, DefaultEvictCallback, RH>,
+        &RawLRU<K, V, DefaultEvictCallback, FH>,
+        &RawLRU<K, V, DefaultEvictCallback, GH>,
+        usize,
+    ) {
+        (&self.recent, &self.frequent, &self.ghost, self.recent_size)
+    }
+}
